@@ -78,21 +78,21 @@ CHECKS.update({
          "DESIGN.md §3 C04"),
  "C09": ("exploration",
          "small-scope exhaustive enumeration of paths (all strings up to length 6/7 over a 9-symbol alphabet), query keys, header alphabets, frame/varint/JSON/WebSocket byte patterns x entry paths x mux options on the real Mux with a recover() oracle and a hang watchdog",
-         "Every input of the stated families is sent through Mux.ServeHTTP on each entry path (transcoding, gRPC, gRPC-web(-text), WebSocket upgrade) and under each option set (plain, interceptors, stats handler, both): no panic, bounded reads after end of input, an HTTP status in 100..599 or a hijacked and closed connection.",
-         "Small-scope hypothesis (lengths/alphabets as stated); a request that does not return within 120 s is reported as a hang.",
+         "Every input of the stated families is sent through Mux.ServeHTTP on each entry path (transcoding, gRPC, gRPC-web(-text), WebSocket upgrade) and under each option set (plain, interceptors, stats handler, both): no panic, bounded reads after end of input, an HTTP status in 100..599 or a hijacked and closed connection; proxied client-streaming/bidi calls whose client leaves the upload open return once the back-end is done or the grpc-timeout has passed.",
+         "Small-scope hypothesis (lengths/alphabets as stated); a request that does not return within 120 s (45 s after a 100 ms deadline in the proxied family) is reported as a hang.",
          "DESIGN.md §3 C09"),
 })
 
 CHECKS.update({
  "C18": ("exploration",
-         "exhaustive enumeration of (protocol, shape, payload size, outcome, interceptor behaviour, stats, metadata) on the real Mux with logging interceptors/stats handler; differential against the same call without options; fault enumeration: every position of a failing response Write, and early exits (undecodable body, passed deadline, failing WebSocket writes)",
-         "For every combination the interceptor log must show exactly one call of the right kind with the method's full name and streaming flags, the client must get what the interceptor returned, the stats log must match Tag InHeader Begin (payload|OutHeader)* OutTrailer? End with one End carrying the chain's error and one payload event per message, and pass-through options must leave status, body and headers identical to the option-free mux.",
+         "exhaustive enumeration of (protocol, shape, payload size, outcome, interceptor behaviour, stats, metadata) on the real Mux with logging interceptors/stats handler; differential against the same call without options; fault enumeration: every position of a failing response Write, early exits (undecodable body, passed deadline, failing WebSocket writes), and a goroutine left behind by the handler that receives while End is reported or after ServeHTTP returned",
+         "For every combination the interceptor log must show exactly one call of the right kind with the method's full name and streaming flags, the client must get what the interceptor returned, the stats log must match Tag InHeader Begin (payload|OutHeader)* OutTrailer? End with one End carrying the chain's error and one payload event per message, no event after End, no server-side event claiming IsClient(), InHeader naming the announced grpc-encoding, and pass-through options must leave status, body and headers identical to the option-free mux.",
          "Payload events are not demanded on WebSocket; error framing after HTTP stream messages is not demanded.",
          "DESIGN.md §3 C18"),
  "C19": ("exploration",
          "exhaustive enumeration of selector lists (<= 2 selectors over all name prefixes, wildcards, siblings, case variants) x services on fresh muxes against the documented selector semantics; differential service-config vs annotation; healthz vs the health server",
          "Each selector carries its own path; a path is dispatched to a method iff the selector is the method's full name or a trailing wildcard covering it. Every template/kind/body rule behaves identically as service config and as annotation over the near-miss probe set. /v1/healthz (GET and WebSocket watch) and the implicit route report exactly what the health server reports for every service name x status.",
-         "Selector lists that would bind one path to two methods of the registered service are skipped; invalid selectors are not explored.",
+         "Selector lists that would bind one path to two methods of the registered service are skipped; selectors with a wildcard that is not their last component must be refused or never bound, never panic.",
          "DESIGN.md §3 C19"),
  "C20": ("exploration",
          "exhaustive enumeration of mount pattern sets (<= 3 of 6) x extra handlers x request prefixes x inner paths x protocols through NewServer's handler, differential against the bare mux on the stripped path",
@@ -103,18 +103,18 @@ CHECKS.update({
 
 CHECKS.update({
  "C11": ("model_checking",
-         "explicit-state breadth-first search over registration histories (state = shortest history, re-executed on a fresh Mux; dedup on reference registry + canonical implementation fingerprint), probes x all rand.Intn picks after every transition",
-         "Every history over {RegisterService(local), RegisterConn x3 back-ends, DropConn x3, back-end changes its descriptors and re-registers (two directions), DropConn(unknown)} up to the depth bound is applied to the real Mux with scripted back-ends; after every transition each method is probed over its rule route, implicit route and gRPC under every handler pick: the answering back-end must be a live owner, a method with live owners is never unserved, a method with none is NotFound/Unimplemented, operation results match the reference registry, nothing panics.",
+         "explicit-state breadth-first search over registration histories in two worlds (state = shortest history, re-executed on a fresh Mux; dedup on reference registry + canonical implementation fingerprint), probes x all rand.Intn picks after every transition",
+         "Every history over {RegisterService(local), RegisterConn x3 back-ends, DropConn x3, back-end changes its descriptors and re-registers (two directions), DropConn(unknown)} up to the depth bound is applied to the real Mux with scripted back-ends; after every transition each method is probed over its rule route, implicit route and gRPC under every handler pick: the answering back-end must be a live owner, a method with live owners is never unserved, a method with none is NotFound/Unimplemented, operation results match the reference registry, nothing panics. Both worlds carry service-config rules next to annotated ones; the second world has one descriptor file declaring two services served by two different back-ends, and a request must only be sent to a back-end that lists its service.",
          "Back-ends are never-dialled grpc.ClientConns whose interceptors answer reflection and data calls (validated against real grpc-go servers in the conformance pass); state merging trusts VerifFingerprint.",
          "DESIGN.md §3 C11"),
  "C12": ("model_checking",
-         "stateless preemption-bounded exploration (iterated bounds) of all interleavings of writer/reader threads on the real Mux under a controlled scheduler injected by go build -overlay; porcupine linearizability + snapshot-immutability monitor per schedule; separate free-running -race pass",
-         "Scenarios of 3-4 threads (RegisterService, failing registration, RegisterConn, DropConn vs readers issuing 2-3 requests over three routes) are explored over every interleaving of the real synchronisation operations up to the preemption bound. Each schedule's call/return history must be linearizable against the registry specification (porcupine), every snapshot ever published must keep its fingerprint, a failing registration must leave the snapshot unchanged, no panic/deadlock. The same bodies then run free under the race detector.",
+         "stateless preemption-bounded exploration (iterated bounds) of the interleavings of writer/reader threads on the real Mux under a controlled scheduler injected by go build -overlay, followed by an unbounded explicit-state depth-first search over every interleaving (state key computed by the scheduler from thread histories, the ordered observation log and the published snapshots; the key is validated on every run against a stateless search of two small scenarios); porcupine linearizability + snapshot-immutability monitor per schedule; separate free-running -race pass",
+         "Scenarios of 3-4 threads (RegisterService, failing registration, RegisterConn, DropConn vs readers issuing 2-3 requests over three routes) are explored over every interleaving of the real synchronisation operations up to the preemption bound. Each schedule's call/return history must be linearizable against the registry specification (porcupine), every snapshot ever published must keep its fingerprint, a failing registration must leave the snapshot unchanged, no panic/deadlock. A second phase searches every interleaving without a preemption bound, not expanding a state twice, and reports per scenario whether it completed. The same bodies then run free under the race detector.",
          "Unsynchronised accesses between scheduling points are not interleaved (covered by the immutability monitor and the -race pass); pools are not scheduling points here.",
          "DESIGN.md §3 C12"),
  "C13": ("model_checking",
          "stateless deviation-bounded exploration (preemptions + 'pool emptied' environment answers, iterated bounds) of concurrent request pairs/triples on the real Mux under the controlled scheduler; differential against each request's solo run; pool-discipline and WaitGroup-contract monitors in the sync shims; separate free-running -race pass",
-         "Pairs (thorough: all 36 pairs + triples) of requests of 8 kinds chosen to collide on bytesPool, bufPool and the gzip pools run concurrently on one Mux; scheduling points at every pool Get/Put, WaitGroup op, body Read, response Write and handler step. In every explored schedule each response and each handler-seen message must equal the request's solo run and messages retained by handlers must be unchanged at the end; no panic, no deadlock. The same bodies then run free under the race detector.",
+         "Pairs (thorough: all pairs + triples) of requests of 17 kinds chosen to collide on bytesPool, bufPool and the gzip pools - among them a bidi call served by a full-duplex handler (two goroutines on one stream) and requests through NewServer's mounts after one the mount turned away - run concurrently on one Mux; scheduling points at every pool Get/Put, WaitGroup op, body Read, response Write and handler step. In every explored schedule each response and each handler-seen message must equal the request's solo run and messages retained by handlers must be unchanged at the end; no panic, no deadlock. The same bodies then run free under the race detector.",
          "Races inside grpc-go/net/http are outside the scheduler; proxied streams are covered by C10.",
          "DESIGN.md §3 C13"),
 })
@@ -122,7 +122,7 @@ CHECKS.update({
 CHECKS.update({
  "C15": ("model_checking",
          "exhaustive enumeration of grpc-timeout strings (all 1..5/7-digit values x 6 units through the real gRPC path, remaining layers through the parser hook, malformed shapes) plus stateless preemption-bounded exploration of cancellation scenarios under the controlled scheduler",
-         "Part 1: every legal timeout value of the enumerated layers must give the handler a deadline inside the bracket [receipt+T, handler start+T] (hours clamp), malformed values must be refused without invoking the handler. Part 2: for {gRPC, gRPC-web, HTTP} x {unary, client-, server-, bidi-streaming} a client-cancel thread races a feeder thread and the server thread (plus scenarios with a goroutine leaked by the handler): in every schedule the handler's ctx.Err() is non-nil at every observation after the cancel, sends started after it fail, a cancel is never reported as a clean EOF, ServeHTTP returns (deadlock detection) and nothing is written to the ResponseWriter after it returned.",
+         "Part 1: every legal timeout value of the enumerated layers must give the handler a deadline inside the bracket [receipt+T, handler start+T] (hours clamp), malformed values must be refused without invoking the handler. Part 2: for {gRPC, gRPC-web, HTTP} x {unary, client-, server-, bidi-streaming} a client-cancel thread races a feeder thread and the server thread (plus scenarios with a goroutine leaked by the handler): in every schedule the handler's ctx.Err() is non-nil at every observation after the cancel, sends started after it fail, a cancel is never reported as a clean EOF, ServeHTTP returns (deadlock detection), nothing is written to the ResponseWriter after it returned, and a healthy unary call made on the same mux right after the schedule runs its handler under the deadline it asked for.",
          "Promptness is 'at the next observation'; the cancel model (context cancel + failing reads/writes) mirrors net/http; signed timeouts are not demanded.",
          "DESIGN.md §3 C15"),
 })
